@@ -19,7 +19,7 @@ def main():
     args = ap.parse_args()
     prop = args.prop.upper()
     mod = importlib.import_module("props." + prop.lower())
-    chk = vlib.Check(prop, args.tier)
+    chk = vlib.Check(prop, args.tier, keep_evidence=bool(args.replay))
     try:
         if args.replay:
             rc = mod.replay(chk, args.replay)
